@@ -18,6 +18,7 @@
 #include "manifest_parser.h"
 #include "state.h"
 #include "status.h"
+#include "status_printer.h"
 #undef private
 #undef protected
 #include "verif.h"
@@ -181,10 +182,10 @@ static void closure(const std::string& f, std::vector<std::string>* out, int dep
 struct LastRun { bool ran; std::vector<long> snap; std::string command; LastRun() : ran(false) {} };
 static LastRun g_last[16];
 // ------------------------------------------------------------------------------------------------ the command runner
-struct Running { Edge* edge; std::vector<long> snap; bool missing_input; int flags; bool phantom; };
+struct Running { Edge* edge; std::vector<long> snap; bool missing_input; int flags; bool phantom; long stdout_len_at_start; };
 struct TokenPool;
-struct RunnerOpts { int parallelism; bool may_fail; bool may_interrupt; bool check_inputs_fresh; bool failed_touch; bool start_may_fail; bool check_idle; bool sym_exit_code; TokenPool* tokens; Builder* builder; int failures_allowed;
-  RunnerOpts() : parallelism(1), may_fail(false), may_interrupt(false), check_inputs_fresh(false), failed_touch(false), start_may_fail(false), check_idle(false), sym_exit_code(false), tokens(NULL), builder(NULL), failures_allowed(1) {} };
+struct RunnerOpts { int parallelism; bool may_fail; bool may_interrupt; bool check_inputs_fresh; bool failed_touch; bool start_may_fail; bool check_idle; bool sym_exit_code; bool prints_output; TokenPool* tokens; Builder* builder; int failures_allowed;
+  RunnerOpts() : parallelism(1), may_fail(false), may_interrupt(false), check_inputs_fresh(false), failed_touch(false), start_may_fail(false), check_idle(false), sym_exit_code(false), prints_output(false), tokens(NULL), builder(NULL), failures_allowed(1) {} };
 // a GNU make jobserver pool reduced to its protocol: one implicit slot plus `pool` explicit tokens; acquiring may fail whenever the pool is empty
 struct TokenPool : public Jobserver::Client {
   int pool, acquired, released; bool implicit_out; TokenPool(int n) : pool(n), acquired(0), released(0), implicit_out(false) {}
@@ -241,6 +242,7 @@ struct SymRunner : public CommandRunner {
     if (!dep.empty()) { size_t sl = dep.rfind('/'); if (sl != std::string::npos) VERIF_ASSERT(g_tree->has_dir(dep.substr(0, sl)), "C04: the directory of the depfile exists when the command starts"); }
     std::string rsp = e->GetUnescapedRspfile();
     if (!rsp.empty()) { VFile* f = g_tree->find(rsp); VERIF_ASSERT(f && f->exists && f->is_text && f->text == e->GetBinding("rspfile_content"), "C16: the response file holds exactly the evaluated rspfile_content when the command starts"); }
+    r.stdout_len_at_start = opt.prints_output ? verif_stdout_len() : 0;
     active.push_back(r); started.push_back(edge_ordinal(e)); events.push_back("start " + e->outputs_[0]->path());
     if ((int)active.size() > max_running) max_running = (int)active.size();
     return true;
@@ -262,6 +264,8 @@ struct SymRunner : public CommandRunner {
     int i = active.size() > 1 ? verif_choice("finish_which", (int)active.size()) : 0;
     Running r = active[i]; active.erase(active.begin() + i);
     Edge* e = r.edge; int ord = edge_ordinal(e);
+    if (opt.prints_output && e->use_console())
+      VERIF_ASSERT(verif_stdout_len() == r.stdout_len_at_start, "C20: while a console-pool command owns the terminal nothing else is written to it");
     bool fail = r.missing_input || (r.flags & ALWAYS_FAILS);
     if (!fail && opt.may_fail) fail = verif_bool("command_fails");
     ExitStatus st = ExitSuccess; std::string output;
@@ -273,7 +277,7 @@ struct SymRunner : public CommandRunner {
       st = ExitFailure; if (opt.sym_exit_code) st = (ExitStatus)(1 + verif_choice("exit_code_minus_1", 3));
       failed.push_back(ord); exit_codes.push_back((int)st); failures_seen++; events.push_back("fail " + e->outputs_[0]->path());
       if (opt.failed_touch && verif_bool("failed_command_touched_outputs")) for (size_t k = 0; k < e->outputs_.size(); k++) g_tree->write(e->outputs_[k]->path(), -7 - (long)k);
-      return BuildResult::CommandCompleted(e, st, "boom");
+      return BuildResult::CommandCompleted(e, st, opt.prints_output ? "<<err " + e->outputs_[0]->path() + ">>\n" : std::string("boom"));
     }
     const CmdSpec* s = spec_for(e->outputs_[0]->path());
     for (size_t k = 0; k < e->outputs_.size(); k++) {
@@ -291,6 +295,7 @@ struct SymRunner : public CommandRunner {
     std::vector<std::string> reads = read_set(e);
     std::string dep = e->GetUnescapedDepfile();
     if (!dep.empty()) { std::string t = e->outputs_[0]->path() + ":"; for (size_t q = 0; q < reads.size(); q++) t += " " + reads[q]; t += "\n"; g_tree->write_text(dep, t); }
+    if (opt.prints_output && !e->use_console() && verif_bool("command_prints")) { output += "<<out " + e->outputs_[0]->path() + ">>\npart two of " + e->outputs_[0]->path() + "\n"; events.push_back("printed " + e->outputs_[0]->path()); }
     if (e->GetBinding("deps") == "msvc") { for (size_t q = 0; q < reads.size(); q++) output += "Note: including file: " + reads[q] + "\n"; }
     if (ord < 16) { g_last[ord].ran = true; g_last[ord].snap = r.snap; g_last[ord].command = e->EvaluateCommand(true); }
     finished_ok.push_back(ord); events.push_back("ok " + e->outputs_[0]->path());
@@ -314,14 +319,24 @@ struct RecStatus : public Status {
   void Warning(const char* m, ...) override { msgs.push_back(std::string("warning: ") + m); }
   void Error(const char* m, ...) override { msgs.push_back(std::string("error: ") + m); }
 };
+// the real StatusPrinter (and LinePrinter) next to the recording monitor
+struct TeeStatus : public Status {
+  RecStatus* rec; StatusPrinter* real; TeeStatus(RecStatus* r, StatusPrinter* p) : rec(r), real(p) {}
+  void EdgeAddedToPlan(const Edge* e) override { rec->EdgeAddedToPlan(e); real->EdgeAddedToPlan(e); } void EdgeRemovedFromPlan(const Edge* e) override { rec->EdgeRemovedFromPlan(e); real->EdgeRemovedFromPlan(e); }
+  void BuildEdgeStarted(const Edge* e, int64_t t) override { rec->BuildEdgeStarted(e, t); real->BuildEdgeStarted(e, t); }
+  void BuildEdgeFinished(Edge* e, int64_t a, int64_t b, ExitStatus st, const std::string& o) override { rec->BuildEdgeFinished(e, a, b, st, o); real->BuildEdgeFinished(e, a, b, st, o); }
+  void BuildStarted() override { rec->BuildStarted(); real->BuildStarted(); } void BuildFinished() override { rec->BuildFinished(); real->BuildFinished(); } void NewLine() override {}
+  void SetExplanations(Explanations* x) override { real->SetExplanations(x); }
+  void Info(const char* m, ...) override { rec->Info(m); } void Warning(const char* m, ...) override { rec->Warning(m); } void Error(const char* m, ...) override { rec->Error(m); }
+};
 struct NoDeadPaths : public BuildLogUser { bool IsPathDead(StringPiece) const override { return false; } };
 
 // ------------------------------------------------------------------------------------------------ one ninja invocation
-struct InvocationOpts { RunnerOpts run; int failures_allowed; std::vector<std::string> targets; bool use_logs; bool dry_run; int token_pool; InvocationOpts() : failures_allowed(1), use_logs(true), dry_run(false), token_pool(-1) {} };
+struct InvocationOpts { RunnerOpts run; int failures_allowed; std::vector<std::string> targets; bool use_logs; bool dry_run; int token_pool; bool real_status; InvocationOpts() : failures_allowed(1), use_logs(true), dry_run(false), token_pool(-1), real_status(false) {} };
 struct InvocationResult {
   bool parsed, loaded, added; int rc; bool up_to_date; std::string err;
-  std::vector<int> started, finished_ok, failed, exit_codes; std::vector<std::string> events; int max_running; bool stuck; bool interrupted; int tokens_outstanding; int status_started, status_finished, status_added, status_removed; std::vector<int> status_started_edges;
-  InvocationResult() : parsed(false), loaded(false), added(false), rc(-1), up_to_date(false), max_running(0), stuck(false), interrupted(false), tokens_outstanding(0), status_started(0), status_finished(0), status_added(0), status_removed(0) {}
+  std::vector<int> started, finished_ok, failed, exit_codes; std::vector<std::string> events; int max_running; bool stuck; bool interrupted; int tokens_outstanding; int status_started, status_finished, status_added, status_removed; std::vector<int> status_started_edges; int sp_started, sp_finished, sp_total;
+  InvocationResult() : parsed(false), loaded(false), added(false), rc(-1), up_to_date(false), max_running(0), stuck(false), interrupted(false), tokens_outstanding(0), status_started(0), status_finished(0), status_added(0), status_removed(0), sp_started(0), sp_finished(0), sp_total(0) {}
 };
 static bool has_id(const std::vector<int>& v, int x) { for (size_t i = 0; i < v.size(); i++) if (v[i] == x) return true; return false; }
 
@@ -331,6 +346,8 @@ static InvocationResult invoke(const InvocationOpts& o) {
   State::kDefaultPool.current_use_ = 0; State::kDefaultPool.delayed_.clear();
   State::kConsolePool.current_use_ = 0; State::kConsolePool.delayed_.clear();
   State* state = new State; SymDisk* disk = new SymDisk; RecStatus* status = new RecStatus; BuildConfig* config = new BuildConfig;
+  config->verbosity = o.real_status ? BuildConfig::NORMAL : BuildConfig::QUIET;
+  Status* status_if = status; StatusPrinter* sp = NULL; if (o.real_status) { sp = new StatusPrinter(*config); status_if = new TeeStatus(status, sp); }
   std::string err;
   ManifestParser parser(state, disk);
   res.parsed = parser.Load("build.ninja", &err);
@@ -347,10 +364,10 @@ static InvocationResult invoke(const InvocationOpts& o) {
     VERIF_ASSERT(ok, "C07/C08/C09: both logs load and open at the start of an invocation");
     if (!ok) return res;
   }
-  config->parallelism = o.run.parallelism; config->failures_allowed = o.failures_allowed; config->verbosity = BuildConfig::QUIET; config->dry_run = o.dry_run;
+  config->parallelism = o.run.parallelism; config->failures_allowed = o.failures_allowed; config->dry_run = o.dry_run;
   TokenPool* tokens = o.token_pool >= 0 ? new TokenPool(o.token_pool) : NULL;
   {
-    Builder builder(state, *config, log, deps, disk, status, 0);
+    Builder builder(state, *config, log, deps, disk, status_if, 0);
     if (tokens) builder.SetJobserverClient(std::unique_ptr<Jobserver::Client>(tokens));
     SymRunner* runner = new SymRunner; runner->opt = o.run; runner->opt.tokens = tokens; runner->opt.builder = &builder; runner->opt.failures_allowed = o.failures_allowed;
     if (!o.dry_run) builder.command_runner_.reset(runner);
@@ -373,6 +390,7 @@ static InvocationResult invoke(const InvocationOpts& o) {
     if (o.dry_run) delete runner;
   }
   if (tokens) res.tokens_outstanding = tokens->outstanding();
+  if (sp) { res.sp_started = sp->started_edges_; res.sp_finished = sp->finished_edges_; res.sp_total = sp->total_edges_; }
   res.status_started_edges = status->started_edges; res.status_started = status->started; res.status_finished = status->finished; res.status_added = status->added; res.status_removed = status->removed;
   if (log && !o.dry_run) { log->Close(); deps->Close(); }
   return res;
